@@ -55,6 +55,9 @@ var (
 	ErrUnknownFormat = errors.New("unknown attestation format")
 	// ErrEventLogPathEmpty is returned when the event log path in Options is empty.
 	ErrEventLogPathEmpty = errors.New("event log path is empty")
+	// ErrNoObjectName is returned when a fetch is needed but no full-length measurement is known to
+	// derive the endorsement's object name from.
+	ErrNoObjectName = errors.New("no full-length measurement to derive the endorsement object name from")
 )
 
 const (
@@ -155,15 +158,24 @@ func (opts *Options) fromEventLog() ([]byte, error) {
 }
 
 func fromSevSnpAttestationProto(at *spb.Attestation) ([]byte, string, error) {
-	if out, err := extractsev.FromAttestation(at); err == nil {
-		return out, "", nil
+	// The object name is only defined for a full-length measurement. It is derived even when the
+	// endorsement is found locally, so that a forced fetch knows what to ask for.
+	var objectName string
+	if meas := at.GetReport().GetMeasurement(); len(meas) == abi.MeasurementSize {
+		objectName = extractsev.GCETcbObjectName(sev.GCEUefiFamilyID, meas)
 	}
-	meas := at.GetReport().GetMeasurement()
-	return nil, extractsev.GCETcbObjectName(sev.GCEUefiFamilyID, meas), nil
+	if out, err := extractsev.FromAttestation(at); err == nil {
+		return out, objectName, nil
+	}
+	return nil, objectName, nil
 }
 
 func fromTdxAttestationProto(at *tpb.QuoteV4) string {
-	return extracttdx.GCETcbObjectName(at.GetTdQuoteBody().GetMrTd())
+	mrtd := at.GetTdQuoteBody().GetMrTd()
+	if len(mrtd) != tabi.MrTdSize {
+		return ""
+	}
+	return extracttdx.GCETcbObjectName(mrtd)
 }
 
 // Attestation will try to deserialize a given attestation in any of the supported formats and
@@ -286,9 +298,11 @@ func Endorsement(opts *Options) (out []byte, err error) {
 		}
 	}
 
-	// Then try the internet.
+	// Then try the internet, but never without an object name: the bucket root is not an endorsement.
 	if opts.Getter == nil {
 		internetErr = ErrGetterNil
+	} else if objectName == "" {
+		internetErr = ErrNoObjectName
 	} else {
 		endorsement, internetErr = opts.Getter.Get(verify.GCETcbURL(objectName))
 		if internetErr == nil {
